@@ -61,6 +61,7 @@ type obsScen struct {
 	SH    int      `json:"sh"`    // server stats handlers
 	Mods  string   `json:"mods"`  // which values the stages rewrite: m(etadata) q(request) r(eply) e(rror)
 	Rpcs  []obsRpc `json:"rpcs"`
+	EOF   bool     `json:"eof"` // the client's failing reads report io.EOF (a peer that closed a pipe / socket cleanly)
 }
 
 type obsW struct {
@@ -665,6 +666,9 @@ func runObservers(t *testing.T, sc *Scenario, raw []byte) {
 			p.with(func() {
 				if read {
 					p.rerr = errInjected
+					if os_.EOF {
+						p.rerr = io.EOF
+					}
 				} else {
 					p.werr = errInjected
 				}
